@@ -41,8 +41,10 @@ def problems(
     complex_energy=False,
     max_K=None,
     safe_bias=False,
+    min_blocks=1,
+    min_K=2,
 ):
-    n_blocks = draw(st.integers(1, max_blocks))
+    n_blocks = draw(st.integers(min_blocks, max_blocks))
     blocks = []
     for _ in range(n_blocks):
         room = max_N - sum(blocks) - (n_blocks - len(blocks) - 1)
@@ -97,7 +99,7 @@ def problems(
         max_K = {1: 4, 2: 3, 3: 3}[n_params] if tier == "quick" else {1: 5, 2: 4, 3: 3}[n_params]
     if rep == "sympy":
         max_K = min(max_K, 3)
-    K = draw(st.integers(2, max_K))
+    K = draw(st.integers(min(min_K, max_K), max_K))
     orders = [tuple(int(i == k) for i in range(n_params)) for k in range(n_params)]
     if draw(st.booleans()):
         extra = [o for o in itertools.product(range(4), repeat=n_params) if 2 <= sum(o) <= 3]
